@@ -4,6 +4,7 @@
   same function of the logical rows).
 -/
 import NPModel.Refine.Fields
+import NPModel.Refine.Take
 import NPModel.Refine.Samples
 namespace NP.C04
 open NP
@@ -27,6 +28,30 @@ theorem slice_layout_independent (s₁ s₂ : PStruct α) (st n : Nat) (h : s₁
     parquet produce) read as the same rows. -/
 theorem canonical_reencoding_same_rows (l : PList α) : (PList.ofRows l.rows).rows = l.rows :=
   PList.ofRows_rows l.rows
+
+/-- **`__getitem__` cannot tell two layouts of the same rows apart**: for any two well-formed
+    columns that read as the same list of rows — whatever their chunking, slice offsets, buffers and
+    hidden data — every key gives the same logical result, or fails on both. -/
+theorem getitem_layout_independent (c₁ c₂ : PCol α) (h₁ : c₁.WF = true) (h₂ : c₂.WF = true)
+    (h : c₁.rows = c₂.rows) (k : Key) :
+    (NArr.getItem c₁ k).map absGet = (NArr.getItem c₂ k).map absGet := by
+  rw [getItem_refines c₁ h₁ k, getItem_refines c₂ h₂ k, h]
+
+/-- … and neither can `take`. -/
+theorem take_column_layout_independent (c₁ c₂ : PCol α) (h₁ : c₁.WF = true) (h₂ : c₂.WF = true)
+    (a₁ : c₁.aligned) (a₂ : c₂.aligned) (h : c₁.rows = c₂.rows) (indices : List Int) (fill : Row α) :
+    (NArr.take c₁ indices false fill).map PCol.rows = (NArr.take c₂ indices false fill).map PCol.rows := by
+  rw [take_refines_nofill c₁ h₁ a₁, take_refines_nofill c₂ h₂ a₂, h]
+
+/-- … nor pickling (combine_chunks). -/
+theorem pickle_layout_independent (c₁ c₂ : PCol α) (h₁ : c₁.WF = true) (h₂ : c₂.WF = true) (h : c₁.rows = c₂.rows) :
+    (NArr.pickle c₁).rows = (NArr.pickle c₂).rows := by
+  have e : ∀ c : PCol α, c.WF = true → (NArr.pickle c).rows = c.rows := by
+    intro c hw
+    unfold NArr.pickle PCol.rows
+    simp only [List.flatMap_cons, List.flatMap_nil, List.append_nil]
+    exact PCol.combine_rows c hw
+  rw [e c₁ h₁, e c₂ h₂, h]
 
 /-- non-vacuity: two different layouts of the same two rows -/
 example : (Samples.s1.slice 2 1).rows = (Samples.s1.take [some 2]).rows ∧
